@@ -20,7 +20,7 @@ func init() { core.Register(c19{}) }
 func (c19) ID() string    { return "C19" }
 func (c19) Level() string { return "exploration" }
 func (c19) Rule() string {
-	return "cases = command sequences of 50..400 commands over 3..6 keys x 3..5 fields/members mixing strings with TTL (0, +10 min, +1 h, +10^4 h, -1 ms, -1 h, 250 years, MaxInt64: the nearest deadline is 10 minutes away, so expiry never depends on when the check runs; plus, in every second case (thorough: every 16th), four probe keys on which a Set with a 20 ms / 1 h / no deadline is followed by a Set of the SAME bytes with another deadline, judged 200 ms later and again after the restart: the later deadline alone decides), hashes, sets, lists (push/pop at both ends, pops on empty lists) and sorted sets (score updates, re-adding with the same score; scores incl. NaN, +-Inf, -0, negative and denormal values), wrong-type commands on every type pair, Del + re-creation with another type, commands on expired strings, and 1..4 restarts; store with small DataFileSize so that structure updates span rotations, all index types and both I/O types. In every second case key and field/member are passed as sub-slices of one packet buffer (the key slice has spare capacity holding the next argument), as a network front-end would. Every reply is normalised to an abstract outcome (present(v) / absent / bool / size / score / type / wrong-type) and compared with an in-memory reference model of the five types, immediately and again for a full read-back of all keys/fields/members after every restart. Non-trivial: sequence using >=4 of the 5 types, >=1 wrong-type reply, >=1 Del + re-creation and >=1 restart; distinct = hash of (config, command log)"
+	return "cases = command sequences of 50..400 commands over 3..6 keys x 3..5 fields/members mixing strings with TTL (0, +10 min, +1 h, +10^4 h, -1 ms, -1 h, 250 years, MaxInt64: the nearest deadline is 10 minutes away, so expiry never depends on when the check runs; plus, in every second case (thorough: every 17th), four probe keys on which a Set with a 20 ms / 1 h / no deadline is followed by a Set of the SAME bytes with another deadline, judged 200 ms later and again after the restart: the later deadline alone decides), hashes, sets, lists (push/pop at both ends, pops on empty lists) and sorted sets (score updates, re-adding with the same score; scores incl. NaN, +-Inf, -0, negative and denormal values), wrong-type commands on every type pair, Del + re-creation with another type, commands on expired strings, and 1..4 restarts; store with small DataFileSize so that structure updates span rotations, all index types and both I/O types. In every second case key and field/member are passed as sub-slices of one packet buffer (the key slice has spare capacity holding the next argument), as a network front-end would. Every reply is normalised to an abstract outcome (present(v) / absent / bool / size / score / type / wrong-type) and compared with an in-memory reference model of the five types, immediately and again for a full read-back of all keys/fields/members after every restart. Non-trivial: sequence using >=4 of the 5 types, >=1 wrong-type reply, >=1 Del + re-creation and >=1 restart; distinct = hash of (config, command log)"
 }
 func (c19) Assumptions() []string {
 	return []string{"absence encodings ((nil,nil), ErrKeyNotFound, (-1,nil)) are normalised to `absent`", "string values are non-empty; hash fields and list elements may be empty, in which case HGet/LPop/RPop replies are compared modulo `empty == absent` (the API cannot tell them apart) while HSet/HDel flags and sizes are compared exactly",
@@ -42,9 +42,9 @@ func (c19) Cases(tier string, seed uint64) []core.Case {
 		cfg.IndexType = core.IndexTypes[i%3]
 		cfg.FileIO = byte((i / 3) % 2)
 		cfg.DataFileSize = []int64{4 << 10, 8 << 10, 40 << 10}[r.Intn(3)]
-		// deadline-replacement probes sleep 200 ms: every second case (quick), every 16th (thorough)
+		// deadline-replacement probes sleep 200 ms: every second case (quick), every 17th (thorough)
 		probe := 0
-		if (tier != "thorough" && i%2 == 1) || i%16 == 1 {
+		if (tier != "thorough" && i%2 == 1) || i%17 == 1 {
 			probe = 1
 		}
 		out = append(out, core.Case{Index: i, ID: fmt.Sprintf("c19-%05d", i), Seed: r.U64(), Data: seqCase{Cfg: cfg, NOps: r.Range(50, 400), NKeys: r.Range(3, 6), Flag: probe}})
